@@ -177,7 +177,7 @@ class World(object):
 
 
 class Audit(object):
-    ALLOWED = ("timeout", "tar", "cp", "file", "gzip", "gunzip")
+    ALLOWED = ("timeout", "tar", "cp", "rm", "chmod", "file", "gzip", "gunzip")      # and only on paths below the scratch base
 
     def __init__(self, world):
         self.w = world
@@ -212,7 +212,9 @@ class Audit(object):
                     cmd = [a for a in cmd[1:]]
                     while cmd and (cmd[0].startswith("-") or cmd[0].isdigit()):
                         cmd = cmd[1:]
-                ok = bool(cmd) and (os.path.basename(cmd[0]) in self.ALLOWED or any(cmd == c for c in self.own_cmds))
+                ok = bool(cmd) and (any(cmd == c for c in self.own_cmds) or (
+                    os.path.basename(cmd[0]) in self.ALLOWED and
+                    all(os.path.realpath(a).startswith(self.w.base + "/") for a in cmd[1:] if a.startswith("/"))))
                 if not ok:
                     with self.lock:
                         self.refused.append(argv)
